@@ -1,5 +1,5 @@
 (* Lemmas about Model/Tenalg.v over an arbitrary commutative ring (Section pattern of Base/BigSum.v). *)
-From Coq Require Import List Arith ZArith Lia Ring Bool.
+From Coq Require Import List Arith ZArith Lia Ring ArithRing Bool.
 From TLV Require Import Base.Shape Base.PyList Base.Tensor Base.BigSum Model.Base Proofs.BaseProofs Model.Tenalg.
 Import ListNotations.
 
@@ -25,3 +25,216 @@ Proof.
   unfold conj_laws. repeat split; intros; repeat match goal with x : GI |- _ => destruct x end;
     cbn [GR r0 r1 radd rmul rsub ropp rconj fst snd]; f_equal; ring.
 Qed.
+
+(* ---------------------------------------------------------------- list / index facts *)
+Lemma set_nth_insert_remove {A} k (v : A) : forall l, k < length l -> set_nth k v l = insert_at k v (remove_nth k l).
+Proof. induction k; intros [|x l] H; simpl in *; try lia; [destruct l; reflexivity|]. f_equal. apply IHk. lia. Qed.
+Lemma remove_nth_set_nth {A} k (v : A) : forall l, remove_nth k (set_nth k v l) = remove_nth k l.
+Proof. induction k; intros [|x l]; simpl; auto. f_equal. apply IHk. Qed.
+Lemma inb_set_nth k : forall s idx dv v, inb s idx -> v < dv -> inb (set_nth k dv s) (set_nth k v idx).
+Proof. induction k; intros [|a s] [|j idx] dv v H Hv; simpl in *; try tauto. destruct H; split; auto. Qed.
+Lemma inb_set_nth_back k : forall s idx dv v, k < length s -> inb (set_nth k dv s) idx -> v < nth k s 0 -> inb s (set_nth k v idx).
+Proof.
+  induction k; intros [|a s] [|j idx] dv v Hk H Hv; simpl in *; try tauto; try lia.
+  - destruct H; split; auto. apply IHk with (dv := dv); auto. lia.
+Qed.
+Lemma nth_inb_set_nth k : forall s idx dv, k < length s -> inb (set_nth k dv s) idx -> nth k idx 0 < dv.
+Proof.
+  induction k; intros [|a s] [|j idx] dv Hk H; simpl in *; try tauto; try lia.
+  destruct H. apply IHk with (s := s); auto. lia.
+Qed.
+Lemma prod_set_nth k : forall s v, k < length s -> prod (set_nth k v s) = v * prod (remove_nth k s).
+Proof. induction k; intros [|a s] v H; simpl in *; try lia. rewrite IHk by lia. lia. Qed.
+Lemma insert_at_0' {B} (x : B) l : insert_at 0 x l = x :: l.
+Proof. destruct l; reflexivity. Qed.
+Lemma inb_insert_remove k : forall s idx, k < length s -> inb s idx -> insert_at k (nth k idx 0) (remove_nth k idx) = idx.
+Proof. intros s idx Hk H. apply insert_remove. rewrite (inb_length _ _ H). exact Hk. Qed.
+Lemma remove_nth_insert_at {A} k (v : A) : forall l, k <= length l -> remove_nth k (insert_at k v l) = l.
+Proof. intros. now apply remove_insert. Qed.
+Lemma inb_insert_at_back k : forall s ridx i, k < length s -> inb (remove_nth k s) ridx -> i < nth k s 0 -> inb s (insert_at k i ridx).
+Proof.
+  intros s ridx i Hk H Hi. rewrite <- (insert_remove k s 0) at 1 by exact Hk. apply inb_insert; assumption.
+Qed.
+
+(* ================================================================ ring section *)
+Section P.
+Context {F : Type} (Op : rops F).
+Hypothesis Rth : ring_theory (r0 Op) (r1 Op) (radd Op) (rmul Op) (rsub Op) (ropp Op) (@eq F).
+Add Ring Fr : Rth.
+Notation d := (r0 Op).
+Infix "*r" := (rmul Op) (at level 40, left associativity).
+Infix "+r" := (radd Op) (at level 50, left associativity).
+Notation bs := (bsum Op).
+
+Lemma bs_ext n f g : (forall i, i < n -> f i = g i) -> bs n f = bs n g.
+Proof. apply bigsum_ext. Qed.
+
+Lemma ravel2 a b i j : ravel [a; b] [i; j] = i * b + j.
+Proof. simpl. rewrite !Nat.mul_1_r, Nat.add_0_r. reflexivity. Qed.
+Lemma ravel1 a i : ravel [a] [i] = i.
+Proof. simpl. lia. Qed.
+
+Lemma get_matmul A B i j : i < nrows A -> j < ncols B ->
+  get d (matmul Op A B) [i; j] = bs (ncols A) (fun k => get d A [i; k] *r get d B [k; j]).
+Proof. intros Hi Hj. unfold matmul. rewrite get_tabulate by (simpl; auto). reflexivity. Qed.
+Lemma get_vecmat v B j : j < ncols B ->
+  get d (vecmat Op v B) [j] = bs (nrows v) (fun k => get d v [k] *r get d B [k; j]).
+Proof. intros Hj. unfold vecmat. rewrite get_tabulate by (simpl; auto). reflexivity. Qed.
+
+Lemma get_tmap f (t : tensor F) idx : inb (shape t) idx -> wf t -> get (f d) (tmap f t) idx = f (get d t idx).
+Proof.
+  intros Hi W. unfold get, tmap. cbn [shape data]. apply map_nth.
+Qed.
+
+(* entry (j, i) of the operand actually multiplied: M, or conj(M^T) under transpose=True *)
+Definition mentry (M : tensor F) (tr : bool) (j i : nat) : F :=
+  if tr then rconj Op (get d M [i; j]) else get d M [j; i].
+
+Lemma get_conj_transpose M a b i j : wf M -> shape M = [a; b] -> i < b -> j < a ->
+  get d (conj_t Op (transpose_rev Op M)) [i; j] = rconj Op (get d M [j; i]).
+Proof.
+  intros W Hs Hi Hj. unfold conj_t, transpose_rev, ndim. rewrite Hs. cbn [length seq rev app].
+  unfold get at 1. unfold tmap. cbn [shape data].
+  set (Tt := transpose d [1; 0] M).
+  assert (HsT : shape Tt = [b; a]) by (unfold Tt, transpose; cbn [shape]; rewrite Hs; reflexivity).
+  rewrite HsT.
+  assert (Hlt : ravel [b; a] [i; j] < length (data Tt)).
+  { unfold Tt. rewrite (wf_transpose d [1;0] M : length _ = _). fold Tt. rewrite HsT. apply ravel_lt. simpl. auto. }
+  rewrite nth_indep with (d' := rconj Op d) by (now rewrite map_length).
+  rewrite map_nth. f_equal.
+  change (nth (ravel [b; a] [i; j]) (data Tt) d) with (nth (ravel [b; a] [i; j]) (data Tt) d).
+  rewrite <- HsT. fold (get d Tt [i; j]). unfold Tt, transpose.
+  rewrite get_tabulate by (rewrite Hs; simpl; auto). reflexivity.
+Qed.
+
+Lemma shape_conj_transpose M a b : shape M = [a; b] -> shape (conj_t Op (transpose_rev Op M)) = [b; a].
+Proof. intros Hs. unfold conj_t, tmap, transpose_rev, ndim, transpose. cbn [shape]. rewrite Hs. reflexivity. Qed.
+
+(* ---------------------------------------------------------------- fold at index level *)
+Lemma fold_eq (X : tensor F) k s : k < length s -> 0 < prod s -> shape X = [nth k s 0; prod (remove_nth k s)] ->
+  fold d X k s = Ok (moveaxis d (reshape (nth k s 0 :: remove_nth k s) X) 0 k).
+Proof.
+  intros Hk Hp Hs. unfold fold. apply Nat.ltb_lt in Hk as Hk'. rewrite Hk'.
+  rewrite reshape_spec_all_some; [reflexivity|].
+  rewrite Hs. unfold prod. cbn [fold_right]. rewrite Nat.mul_1_r. reflexivity.
+Qed.
+
+Lemma get_fold (X : tensor F) k s idx : wf X -> k < length s -> 0 < prod s ->
+  shape X = [nth k s 0; prod (remove_nth k s)] -> inb s idx ->
+  get d (moveaxis d (reshape (nth k s 0 :: remove_nth k s) X) 0 k) idx
+  = get d X [nth k idx 0; ravel (remove_nth k s) (remove_nth k idx)].
+Proof.
+  intros W Hk Hp Hs Hi.
+  set (t1 := reshape (nth k s 0 :: remove_nth k s) X).
+  assert (Hn1 : ndim t1 = length s).
+  { unfold ndim, t1, reshape. cbn [shape length]. rewrite remove_nth_length by exact Hk. lia. }
+  assert (Hidx : idx = insert_at k (nth 0 (nth k idx 0 :: remove_nth k idx) 0) (remove_nth 0 (nth k idx 0 :: remove_nth k idx))).
+  { cbn [nth remove_nth]. symmetry. eapply inb_insert_remove; eauto. }
+  rewrite Hidx at 1.
+  rewrite get_moveaxis.
+  - unfold t1, get, reshape. cbn [shape data]. rewrite Hs, ravel2. cbn [ravel]. reflexivity.
+  - lia.
+  - lia.
+  - unfold t1, reshape. cbn [shape]. split; [apply inb_nth; assumption | apply inb_remove; assumption].
+Qed.
+
+(* ================================================================ mode_dot (core backend) *)
+Theorem mode_dot_matrix_spec (T M : tensor F) (k : nat) (tr : bool) (a b : nat) :
+  wf T -> wf M -> k < ndim T -> 0 < prod (shape T) -> shape M = [a; b] ->
+  (if tr then a else b) = nth k (shape T) 0 -> 0 < (if tr then b else a) ->
+  exists R, mode_dot Op T M k tr = Ok R /\ wf R /\
+    shape R = set_nth k (if tr then b else a) (shape T) /\
+    forall idx, inb (shape R) idx ->
+      get d R idx = bs (nth k (shape T) 0) (fun i => mentry M tr (nth k idx 0) i *r get d T (set_nth k i idx)).
+Proof.
+  intros WT WM Hk Hpos HsM Hdim HJ. unfold ndim in Hk.
+  set (M' := if tr then conj_t Op (transpose_rev Op M) else M).
+  assert (HsM' : shape M' = [if tr then b else a; nth k (shape T) 0]).
+  { unfold M'. destruct tr; [rewrite (shape_conj_transpose M a b HsM) | rewrite HsM]; congruence. }
+  assert (HM' : forall j i, j < (if tr then b else a) -> i < nth k (shape T) 0 -> get d M' [j; i] = mentry M tr j i).
+  { intros j i Hj Hi. unfold M', mentry. destruct tr; [|reflexivity].
+    apply (get_conj_transpose M a b); auto; congruence. }
+  set (J := if tr then b else a) in *.
+  set (sk := nth k (shape T) 0) in *.
+  set (rest := remove_nth k (shape T)).
+  assert (Hprod : sk * prod rest = prod (shape T)) by (apply prod_remove; exact Hk).
+  assert (Hsk : 0 < sk) by nia. assert (Hrest : 0 < prod rest) by nia.
+  set (U := reshape [sk; prod rest] (moveaxis d T k 0)).
+  assert (HU : unfold d T k = Ok U) by (apply unfold_eq; auto).
+  set (ns := set_nth k J (shape T)).
+  assert (Hns_len : length ns = length (shape T)) by (unfold ns; apply set_nth_length).
+  assert (Hns_k : nth k ns 0 = J) by (unfold ns; apply nth_set_nth_same; exact Hk).
+  assert (Hns_rest : remove_nth k ns = rest) by (unfold ns; apply remove_nth_set_nth).
+  assert (Hns_prod : prod ns = J * prod rest) by (unfold ns; apply prod_set_nth; exact Hk).
+  set (X := matmul Op M' U).
+  assert (HsX : shape X = [nth k ns 0; prod (remove_nth k ns)]).
+  { unfold X, matmul. cbn [shape]. unfold nrows, ncols. rewrite HsM'. unfold U, reshape. cbn [shape nth]. now rewrite Hns_k, Hns_rest. }
+  assert (WX : wf X) by apply wf_tabulate.
+  exists (moveaxis d (reshape (nth k ns 0 :: remove_nth k ns) X) 0 k).
+  assert (Hshape : shape (moveaxis d (reshape (nth k ns 0 :: remove_nth k ns) X) 0 k) = ns).
+  { rewrite shape_moveaxis. unfold reshape. cbn [shape nth remove_nth]. apply insert_remove. lia. }
+  split; [|split; [apply wf_moveaxis | split; [exact Hshape|]]].
+  - unfold mode_dot. rewrite HsM. fold J. fold sk. 
+    assert (Hc : ((k <? ndim T) && ((if tr then a else b) =? sk)) = true).
+    { apply andb_true_iff; split; [apply Nat.ltb_lt; exact Hk | apply Nat.eqb_eq; exact Hdim]. }
+    rewrite Hc. fold M'. rewrite HU. cbn [rbind].
+    assert (HnM' : nrows M' = J) by (unfold nrows; now rewrite HsM').
+    rewrite HnM'. fold ns. fold X. apply fold_eq; [lia | nia | exact HsX].
+  - intros idx Hi. rewrite Hshape in Hi.
+    rewrite get_fold by (auto; try lia; nia).
+    rewrite Hns_rest.
+    assert (Hj : nth k idx 0 < J) by (unfold ns in Hi; eapply nth_inb_set_nth; eauto).
+    assert (Hc : ravel rest (remove_nth k idx) < prod rest).
+    { apply ravel_lt. rewrite <- Hns_rest. apply inb_remove. exact Hi. }
+    unfold X. rewrite get_matmul; [| unfold nrows; rewrite HsM'; exact Hj | unfold ncols, U, reshape; cbn [shape nth]; exact Hc].
+    assert (HcM' : ncols M' = sk) by (unfold ncols; now rewrite HsM').
+    rewrite HcM'. apply bs_ext. intros i Hi'. rewrite HM' by assumption. f_equal.
+    assert (Hin : inb (shape T) (set_nth k i idx)) by (unfold ns in Hi; eapply inb_set_nth_back; eauto).
+    destruct (unfold_layout d T k U (set_nth k i idx) WT Hk Hpos HU Hin) as [_ HL].
+    rewrite <- HL. f_equal. f_equal; [| f_equal].
+    + symmetry. apply nth_set_nth_same. rewrite (inb_length _ _ Hi), Hns_len. exact Hk.
+    + f_equal. symmetry. apply remove_nth_set_nth.
+Qed.
+
+Theorem mode_dot_vector_spec (T v : tensor F) (k : nat) (tr : bool) (n : nat) :
+  wf T -> k < ndim T -> 0 < prod (shape T) -> shape v = [n] -> n = nth k (shape T) 0 ->
+  exists R, mode_dot Op T v k tr = Ok R /\ wf R /\
+    shape R = remove_nth k (shape T) /\
+    forall ridx, inb (shape R) ridx ->
+      get d R ridx = bs n (fun i => get d v [i] *r get d T (insert_at k i ridx)).
+Proof.
+  intros WT Hk Hpos Hsv Hn. unfold ndim in Hk.
+  set (sk := nth k (shape T) 0) in *.
+  set (rest := remove_nth k (shape T)).
+  assert (Hprod : sk * prod rest = prod (shape T)) by (apply prod_remove; exact Hk).
+  assert (Hsk : 0 < sk) by nia. assert (Hrest : 0 < prod rest) by nia.
+  set (U := reshape [sk; prod rest] (moveaxis d T k 0)).
+  assert (HU : unfold d T k = Ok U) by (apply unfold_eq; auto).
+  set (X := vecmat Op v U).
+  assert (HsX : shape X = [prod rest]) by reflexivity.
+  assert (WX : wf X) by apply wf_tabulate.
+  exists (reshape rest X).
+  split; [|split; [|split; [reflexivity|]]].
+  - unfold mode_dot. rewrite Hsv. fold sk.
+    assert (Hc : ((k <? ndim T) && (n =? sk)) = true).
+    { apply andb_true_iff; split; [apply Nat.ltb_lt; exact Hk | apply Nat.eqb_eq; exact Hn]. }
+    rewrite Hc, HU. cbn [rbind]. fold rest. fold X. unfold vec_to_tensor.
+    apply reshape_spec_all_some. rewrite HsX. unfold prod. cbn [fold_right]. now rewrite Nat.mul_1_r.
+  - apply wf_reshape; [exact WX|]. rewrite HsX. unfold prod. cbn [fold_right]. now rewrite Nat.mul_1_r.
+  - intros ridx Hi. cbn [reshape shape] in Hi.
+    assert (Hc : ravel rest ridx < prod rest) by (apply ravel_lt; exact Hi).
+    assert (E : get d (reshape rest X) ridx = get d X [ravel rest ridx]).
+    { unfold get, reshape. cbn [shape data]. rewrite HsX, ravel1. reflexivity. }
+    rewrite E. unfold X. rewrite get_vecmat by (unfold ncols, U, reshape; cbn [shape nth]; exact Hc).
+    assert (Hnv : nrows v = n) by (unfold nrows; now rewrite Hsv).
+    rewrite Hnv. apply bs_ext. intros i Hi'. f_equal.
+    assert (Hlen : length ridx = length (shape T) - 1).
+    { rewrite (inb_length _ _ Hi). unfold rest. apply remove_nth_length. exact Hk. }
+    assert (Hin : inb (shape T) (insert_at k i ridx)) by (apply inb_insert_at_back; auto; lia).
+    destruct (unfold_layout d T k U (insert_at k i ridx) WT Hk Hpos HU Hin) as [_ HL].
+    rewrite <- HL. f_equal. f_equal; [| f_equal].
+    + symmetry. apply nth_insert_same. lia.
+    + f_equal. symmetry. apply remove_insert. lia.
+Qed.
+
+End P.
